@@ -91,6 +91,7 @@ type c39nStep struct {
 	Co    int       `json:"co,omitempty"`    // update / get: coordination 0 none, 1 Majority, 2 All
 	Peers int       `json:"peers,omitempty"` // update / get: bit mask of listed peers; exchange: peer index
 	Sel   int       `json:"sel,omitempty"`
+	Mode  int       `json:"mode,omitempty"` // deliver: 1 = re-deliver a delta its target already got (duplicate)
 	Keep  bool      `json:"keep,omitempty"`
 }
 
@@ -151,7 +152,10 @@ func c39nGen(t *rapid.T) c39nCase {
 			s.Peers = rapid.IntRange(0, 1<<c.N-1).Draw(t, "peers")
 		case c39nKDeliver:
 			s.Sel = rapid.IntRange(0, 63).Draw(t, "sel")
-			s.Keep = rapid.IntRange(0, 3).Draw(t, "keep") == 0
+			s.Keep = rapid.IntRange(0, 2).Draw(t, "keep") == 0
+			if rapid.IntRange(0, 4).Draw(t, "mode") == 0 {
+				s.Mode = 1
+			}
 		case c39nKExchange:
 			s.Peers = rapid.IntRange(0, c.N-2).Draw(t, "peer")
 			s.Keep = rapid.IntRange(0, 3).Draw(t, "xkeep") == 0
@@ -469,6 +473,15 @@ func c39nApply(typ int, node string, subs []c39nSub, ts time.Time, noMapRemove b
 	}
 }
 
+// c39nObsOf renders what a reader of the key sees; a replica that holds nothing for the
+// key exposes the same as one that holds the type's empty value.
+func c39nObsOf(typ int, v crdt.ReplicatedData) string {
+	if v == nil {
+		v = c39nInitial(typ)
+	}
+	return c39nObs(v)
+}
+
 func c39nObs(v crdt.ReplicatedData) string {
 	switch t := v.(type) {
 	case nil:
@@ -525,6 +538,7 @@ type c39nRun struct {
 	key    crdt.Key
 	pool   []c39nPair
 	deltas []*c39nMsg // every topic delta published, in publication order
+	done   []c39nPair // topic deltas already delivered to another replica (candidates for duplication)
 	nmsg   int
 	npub   []int                 // publications per origin
 	snap   []crdt.ReplicatedData // full state of each originator after its last update
@@ -650,6 +664,9 @@ func (r *c39nRun) deliver(p c39nPair) []*c39nMsg {
 				r.reordered = true
 			}
 		}
+		if m.got[t] == 0 {
+			r.done = append(r.done, p)
+		}
 		m.got[t]++
 	}
 	if err := c39nCapture.Tell(context.Background(), r.net.pids[t], proto.Clone(m.pb)); err != nil {
@@ -698,13 +715,15 @@ func (r *c39nRun) doUpdate(s c39nStep) {
 					r.mapReadd = true
 				}
 			}
-			if r.adder[sub.Elem]&^r.remover[sub.Elem] != 0 && r.remover[sub.Elem]&^(1<<s.R) != 0 ||
-				r.remover[sub.Elem] != 0 && r.adder[sub.Elem]&^(1<<s.R) != 0 && r.adder[sub.Elem] != r.remover[sub.Elem] {
+			// an adder and a remover of the element that are different replicas
+			a, b := r.adder[sub.Elem], r.remover[sub.Elem]
+			if a != 0 && b != 0 && (a != b || a&(a-1) != 0) {
 				r.addRemove = true
 			}
 		}
 	}
 	r.setView(s.R, s.Peers)
+	before := c39nObsOf(typ, r.get(s.R))
 	ts := time.Unix(1_700_000_000, int64(r.step+1)*100_000+int64(r.c.Skew[s.R])*100_000)
 	x.Logf("step %d: update r%d subs=%+v co=%d view=%v", r.step, s.R, s.Subs, s.Co, r.net.views[s.R])
 	var co crdt.Coordination
@@ -724,12 +743,27 @@ func (r *c39nRun) doUpdate(s c39nStep) {
 		x.Failf("update-unexpected-response", "step %d: Update at r%d answered %T", r.step, s.R, resp)
 	}
 	r.settle(s.R)
-	r.collect(-1)
+	published := 0
+	for _, m := range r.collect(-1) {
+		if m.kind == c39nMDelta {
+			published++
+		}
+	}
 	r.alive("update")
 	// the originator's full state right after the update
-	if d := r.get(s.R); d != nil {
+	d := r.get(s.R)
+	if d != nil {
 		r.snap[s.R] = d.Clone()
 		x.Logf("step %d:   r%d now exposes %s", r.step, s.R, c39nObs(d))
+	}
+	// "The update is always applied locally first and the delta is published" (crdt.Update):
+	// an update that changed what the replica exposes must have published a delta
+	if after := c39nObsOf(typ, d); after != before {
+		x.Class("update_changed_value")
+		if published == 0 {
+			x.Failf("update-changed-value-but-published-no-delta", "step %d: Update at r%d changed the exposed value from %s to %s and published nothing",
+				r.step, s.R, before, after)
+		}
 	}
 	if co != 0 && len(r.net.views[s.R]) > 0 {
 		x.Class("coordinated_update")
@@ -816,6 +850,12 @@ func c39nExec(x *vfkit.X, c c39nCase) {
 				continue
 			}
 			pi := s.Sel % len(r.pool)
+			if s.Mode == 1 && len(r.done) > 0 {
+				// the same delta reaches the replica again (topic + coordinated write, retries)
+				x.Class("deliver_delta")
+				r.deliver(r.done[s.Sel%len(r.done)])
+				continue
+			}
 			p := r.pool[pi]
 			if !s.Keep {
 				r.pool = append(r.pool[:pi:pi], r.pool[pi+1:]...)
@@ -897,7 +937,6 @@ func c39nExec(x *vfkit.X, c c39nCase) {
 	}
 	if len(r.deltas) == 0 {
 		x.Class("no_delta_published")
-		return
 	}
 
 	// reference: fold of Merge over the originators' full states
@@ -912,7 +951,7 @@ func c39nExec(x *vfkit.X, c c39nCase) {
 			ref = ref.Merge(r.snap[i])
 		}
 	}
-	want := c39nObs(ref)
+	want := c39nObsOf(c.Type, ref)
 	fp := "replicas-diverge-" + c39nTypeNames[c.Type]
 	if c.Type == c39nTORMap && r.mapRemove {
 		// the listed ORMap defect needs a Remove of a map key (stale nested value on re-add
@@ -920,7 +959,7 @@ func c39nExec(x *vfkit.X, c c39nCase) {
 		fp = c39nFPORMap
 	}
 	for i := 0; i < c.N; i++ {
-		got := c39nObs(r.get(i))
+		got := c39nObsOf(c.Type, r.get(i))
 		x.Logf("final: r%d exposes %s", i, got)
 		if got != want {
 			x.Failf(fp, "%s, %d replicas: after every published delta reached every replica, r%d exposes %s but the merge of the originators' full states is %s",
